@@ -593,10 +593,19 @@ int main(int argc, char *argv[])
       rl_attempted_completion_function = command_name_completion;
       line = readline(prompt);
 
-      if (!(line == NULL || line[0] == 0))
+      // End of input.
+      if (line == NULL) { break; }
+
+      if (line[0] != 0)
       {
         add_history(line);
         command = line;
+      }
+        else
+      if (in_code)
+      {
+        // An empty line ends assembler mode, it doesn't repeat a command.
+        command.clear();
       }
 #if 0
         else
@@ -609,23 +618,7 @@ int main(int argc, char *argv[])
 
     command.trim();
 
-    String arg;
-    int space = command.find(' ');
-
-    if (space != -1)
-    {
-      arg = command.value() + space;
-      arg.trim();
-
-      command.replace_at(space, 0);
-      command.rtrim();
-    }
-
-    if (is_command_valid(command, arg) == false) { continue; }
-
-    bool has_arg = arg.len() != 0;
-
-    // Assembler mode.
+    // Assembler mode: the whole line is source code, not a command.
     if (in_code)
     {
       if (command.len() == 0)
@@ -660,6 +653,22 @@ int main(int argc, char *argv[])
 
       continue;
     }
+
+    String arg;
+    int space = command.find(' ');
+
+    if (space != -1)
+    {
+      arg = command.value() + space;
+      arg.trim();
+
+      command.replace_at(space, 0);
+      command.rtrim();
+    }
+
+    if (is_command_valid(command, arg) == false) { continue; }
+
+    bool has_arg = arg.len() != 0;
 
     if (command.len() == 0)
     {
